@@ -63,10 +63,34 @@ def run(chk, st, tier):
                 long = f.typ == "string" and any(len(v) > 40 for v in vs)
                 for mx in (1, 2, 1000):
                     ws.append(Fm.Workload(flat, rng.randrange(3), mx, recs + ["W"], "stress:" + ("longstring" if long else f.typ)))
+    # several entries per record in optional columns: lists whose elements are mostly null (null_count counts entries, not records)
+    rl = next((s for s in shapes if s.name == "replist"), None)
+    if rl:
+        lf = rl.model_fields()[1].typ          # fields of the list element
+
+        def elem(mask):
+            toks = ["G", str(len(lf))]
+            for j, g in enumerate(lf):
+                if g.rep == "opt":
+                    toks.append(S.gen_leaf(rng, g.typ, 0.5) if mask >> j & 1 else "N")
+                elif g.rep == "rep":
+                    toks += ["L", "0"] if not (mask >> j & 1) else ["L", "2", "I1", "I0"]
+                else:
+                    toks.append(S.gen_leaf(rng, g.typ, 0.2))
+            return toks
+        recs = []
+        for masks in ([0, 0, 0], [0, 127, 0], [127, 0, 0, 127], [0], [], [85, 42, 0, 0, 127]):
+            toks = ["G", "2", "I%d" % len(recs), "L", str(len(masks))]
+            for m in masks:
+                toks += elem(m)
+            recs.append(" ".join(toks))
+        for mx in (1, 2, 1000):
+            ws.append(Fm.Workload(rl, rng.randrange(3), mx, recs + ["W"], "stress:multi-entry-nulls"))
     ws += Fm.gen_workloads(rng, shapes, 60 if tier == "quick" else 1500, maxrecs=10, extreme=0.8)
     if tier == "quick":
         rng.shuffle(ws)
-        ws = [w for w in ws if w.tag == "stress:longstring"] + [w for w in ws if w.tag != "stress:longstring"][:420]
+        always = ("stress:longstring", "stress:multi-entry-nulls")
+        ws = [w for w in ws if w.tag in always] + [w for w in ws if w.tag not in always][:420]
     res = Fm.exercise(chk, runner, shapes, ws, "C12", validate_level=0, read=False)
     Fm.correspondence(chk, res, what=("write",))
     ok = 0
@@ -94,7 +118,7 @@ def run(chk, st, tier):
     chk.coverage["input_distribution"] = dist
     for r in res[:2]:
         chk.sample({"workload": r["w"].describe(), "validator": (r.get("validate_raw") or "")[:120]})
-    chk.coverage["rule"] = ("per column of the flat 8x3 shape, stress multisets (all-negative, all-equal, type min/max, +-0, +-Inf, NaN incl. signaling, the former sentinel string, empty string, shared prefixes, bytes >= 0x80, values of 8..300 bytes with 0xff at offsets 7,15,..,255, only-null pages) "
+    chk.coverage["rule"] = ("per column of the flat 8x3 shape, stress multisets (all-negative, all-equal, type min/max, +-0, +-Inf, NaN incl. signaling, the former sentinel string, empty string, shared prefixes, bytes >= 0x80, values of 8..300 bytes with 0xff at offsets 7,15,..,255, only-null pages; lists of 0..5 elements whose optional leaves are mostly null) "
                             "as 1-page, multi-page and page-size-1 files, plus random workloads over the portfolio with 80% extreme values; every page of the real file is decoded by the extracted validator and Stats.stats_sound is evaluated "
                             "on its header statistics; sink writes (which contain the statistics) also compared with the model byte for byte. distinct = distinct workloads.")
     chk.coverage["explanation"] = "page_stats_sound (coq/props/C12.v) is proved for all pages about the accumulator model; stats_sound is also the oracle applied to the real pages."
